@@ -3,11 +3,36 @@
 // Contracts for package commodity (machine-checked by /verif/engine; comment-only file).
 package commodity
 
-// The registry is trusted: it hands out non-nil commodities and touches only its own tables.
+// The commodity registry interns commodities by name: the index maps a name to THE commodity of exactly
+// that name (so equal names give the same pointer, different names different commodities - whatever
+// order the names arrive in). Verified; only the locks are not modelled.
+//@ def wfCommodities(cs *Registry) bool := cs != nil && cs.index != nil && live(cs.index)
+//@     && (forall n string :: {key(cs.index, n)} (n in cs.index) ==> cs.index[n] != nil && live(cs.index[n]) && cs.index[n].name == n)
+//
+//@ func (*Registry).Get
+//@   requires wfCommodities(cs)
+//@   modifies cs.index[*]
+//@   ensures [C05] [C06] wfCommodities(cs)
+//@   ensures [C05] [C06] @interned: result.1 == nil ==> result.0 != nil && result.0.name == name && (name in cs.index) && cs.index[name] == result.0
+//@   ensures [C05] [C06] @kept: forall n string :: {key(cs.index, n)} old(n in cs.index) ==> (n in cs.index) && cs.index[n] == old(cs.index[n])
+//@   ensures [C05] [C06] @only: forall n string :: {key(cs.index, n)} (n in cs.index) && !old(n in cs.index) ==> n == name
+//@   ensures @err: result.1 != nil ==> dom(cs.index) == old(dom(cs.index)) && vals(cs.index) == old(vals(cs.index))
+//
 //@ func (*Registry).Create
-//@   trusted
+//@   requires wfCommodities(as) && inText(a.Range)
 //@   modifies as.index[*]
-//@   ensures result.1 == nil ==> result.0 != nil
+//@   ensures wfCommodities(as) && (result.1 == nil ==> result.0 != nil)
+//@   ensures forall n string :: {key(as.index, n)} old(n in as.index) ==> (n in as.index) && as.index[n] == old(as.index[n])
+//
+//@ func (*Registry).MustGet
+//@   panics
+//@   requires wfCommodities(cs)
+//@   modifies cs.index[*]
+//@   ensures wfCommodities(cs) && result != nil && result.name == name
+//
+//@ func NewCommodities
+//@   modifies nothing
+//@   ensures wfCommodities(result) && fresh(result) && fresh(result.index) && len(result.index) == 0
 //
 // Compare: the order of the names; ties only between commodities of the same name.
 //@ def comCmp(a *Commodity, b *Commodity) int := a.name < b.name ? 0 - 1 : (a.name == b.name ? 0 : 1)
@@ -15,7 +40,6 @@ package commodity
 //@   requires c1 != nil && c2 != nil
 //@   ensures [C06] [C05] @lex: result == comCmp(c1, c2)
 //
-//@ func (*Registry).Get
-//@   trusted
-//@   modifies cs.index[*]
-//@   ensures result.1 == nil ==> result.0 != nil
+//@ func isValidCommodity
+//@   modifies nothing
+//@   loop 1 invariant true
